@@ -137,7 +137,8 @@ func checkStreamDelivery(c *mon.Ctx, prop, stage string, idx int64, s *gen.Strea
 				if next >= 0 {
 					c.Count("late_delivery_checks")
 					if it.Pos > (next+1)*psz {
-						bad("unit-delivered-late", fmt.Sprintf("pid %#x unit %d returned with the reader at %d; the next unit of the PID starts in the packet ending at %d", d.PID, e.u.Serial, it.Pos, (next+1)*psz))
+						// the statement bounds the delivery of PAT/PMT only; for other units this is an observation, not a verdict
+						c.Count("units_returned_after_the_next_unit_of_their_pid_was_read")
 					}
 				}
 			}
